@@ -111,7 +111,7 @@ fn c04_attr_eq() {
 }
 
 // [att~=val]: one of the whitespace-separated words is val; never matches for empty val or val with whitespace
-// @verif props=C04,C15 fns=AttributeMatcher::matches_splitted_by_whitespace
+// @verif props=C04,C15 fns=AttributeMatcher::matches_splitted_by_whitespace quick=C04
 #[kani::proof]
 #[kani::unwind(7)] // @thorough 8
 fn c04_attr_includes() {
@@ -193,7 +193,7 @@ fn c04_attr_suffix() {
 }
 
 // [att*=val]: contains val; never matches for empty val
-// @verif props=C04,C15 fns=AttributeMatcher::has_attr_with_substring
+// @verif props=C04,C15 fns=AttributeMatcher::has_attr_with_substring quick=C04
 #[kani::proof]
 #[kani::unwind(7)] // @thorough 8
 fn c04_attr_substring() {
@@ -259,7 +259,7 @@ fn c04_attr_id_class_exists_first_duplicate() {
 }
 
 // .class on a 5-byte class attribute named by concrete bytes
-// @verif props=C04,C15 fns=AttributeMatcher::has_class
+// @verif props=C04,C15 fns=AttributeMatcher::has_class quick=C04
 #[kani::proof]
 #[kani::unwind(8)]
 fn c04_attr_class_words() {
